@@ -4,7 +4,7 @@
 # /verif/seeded/<Cnn>-<next free number>/.  Afterwards removes the seeding worktree /tmp/seed-<Cnn> and <srcroot>.
 P=$1; SRC=${2:-/tmp/seed-$P-out}
 cd "$(dirname "$0")/.."
-for d in $(ls -d $SRC/*/ 2>/dev/null | sort); do
+for d in $(ls -d $SRC/[0-9]*/ 2>/dev/null | sort); do
   [ -f $d/patch.diff ] || continue
   line=$(bash tools/try_seed.sh $P $d 2>&1 | grep "^SEED" | tail -1)
   echo "$line"
@@ -15,5 +15,4 @@ for d in $(ls -d $SRC/*/ 2>/dev/null | sort); do
   n=1; while [ -d seeded/$P-$n ]; do n=$((n+1)); done
   python3 tools/keep_seed.py $P $d $P-$n "$(echo "$line" | sed 's/^SEED [^:]*: //; s/replay=[^ ]*/(failing-input replay)/')"
 done
-git -C /repo worktree remove --force /tmp/seed-$P 2>/dev/null
-rm -rf $SRC
+if [ -z "$KEEP_SRC" ]; then git -C /repo worktree remove --force /tmp/seed-$P 2>/dev/null; rm -rf $SRC; fi
